@@ -101,8 +101,8 @@ class Translator2F(Translator2M):
                     return r
             ruled = any(match(pat, node, {}) for pat, _t, _f in self.r.expr)
             if (not ruled and isinstance(node, ast.Name) and node.id not in scope and node.id not in self.r.names
-                    and node.id in self.r.helpers):
-                return self._lambda_of_def(self.r.helpers[node.id], scope), ""      # a helper used as a value
+                    and node.id in self._helpers()):
+                return self._lambda_of_def(self._helpers()[node.id], scope), ""      # a helper used as a value
             if (not ruled and isinstance(node, ast.Compare) and len(node.ops) == 1
                     and isinstance(node.ops[0], (ast.In, ast.NotIn))
                     and isinstance(node.comparators[0], (ast.Tuple, ast.List))):
@@ -115,6 +115,19 @@ class Translator2F(Translator2M):
 
     def _listcomp(self, node, scope):
         """`[E for t in IT]` with a monadic E -> List.mapM; None = not that case (the generic form applies)"""
+        if len(node.generators) > 1 and not any(g.is_async or g.ifs for g in node.generators):
+            # `[E for a in A for b in B(a)]` = the concatenation over `a` of `[E for b in B(a)]`
+            g = node.generators[0]
+            inner = ast.ListComp(elt=node.elt, generators=list(node.generators[1:]))
+            it = self.pure(g.iter, scope)
+            item = self.fresh("it", scope)
+            sc = dict(scope)
+            sc["\0tmp" + item] = item
+            lines, sc = self.bind_target(g.target, item, sc)
+            body, flag = self.expr(inner, sc)
+            if flag == "bind":
+                raise Untranslatable("nested comprehension whose element may raise: `%s`" % ast.unparse(node))
+            return "(List.flatten (List.map (fun %s => %s; %s) %s))" % (item, "; ".join(lines), body, it), ""
         if len(node.generators) != 1 or node.generators[0].is_async or node.generators[0].ifs:
             return None
         g = node.generators[0]
@@ -204,7 +217,14 @@ class Translator2F(Translator2M):
                 b = self.block(list(st.orelse) + rest, dict(scope), ind + 1, ctx)
                 return "%sif %s then\n%s\n%selse\n%s" % (pad, c, a, pad, b)
             if isinstance(st, ast.FunctionDef):
-                lam = self._lambda_of_def(st, scope)
+                try:
+                    lam = self._lambda_of_def(st, scope)
+                except Untranslatable:
+                    if st.name in (getattr(self, "_helpers_now", None) or {}):
+                        # a closure that is inlined at its call sites: as a VALUE it has no translation (a later use
+                        # of the name as a value is then an unknown name), the `def` itself does nothing
+                        return self.block(rest, scope, ind, ctx)
+                    raise
                 new = self.fresh(st.name, scope)
                 sc = dict(scope)
                 sc[st.name] = new
@@ -307,13 +327,91 @@ class Translator2F(Translator2M):
             def visit_Name(self, n):
                 return ast.copy_location(ast.Name(id=ren.get(n.id, n.id), ctx=n.ctx), n)
         body = [Ren().visit(st) for st in body]
-        binds = [ast.Assign(targets=[ast.Name(id=ren.get(p, p), ctx=ast.Store())], value=given[p])
-                 for p in params if p not in identity]
+        binds = []
+        for p in params:
+            if p in identity:
+                continue
+            if isinstance(given[p], ast.Name) and given[p].id in self._helpers() and not self._lambda_like(
+                    self._helpers()[given[p].id]):
+                # a function handed over under another name: the parameter is an alias of that helper
+                self._helpers_now[ren.get(p, p)] = self._helpers()[given[p].id]
+                continue
+            binds.append(ast.Assign(targets=[ast.Name(id=ren.get(p, p), ctx=ast.Store())], value=given[p]))
         return [ast.fix_missing_locations(st) for st in binds + self._tailify(body, sink)]
 
+    def _helpers(self):
+        h = getattr(self, "_helpers_now", None)
+        return self.r.helpers if h is None else h
+
+    @staticmethod
+    def _lambda_like(fd):
+        body = [x for x in fd.body if not (isinstance(x, ast.Expr) and isinstance(x.value, ast.Constant)
+                                           and isinstance(x.value.value, str))]
+        return len(body) == 1 and isinstance(body[0], ast.Return) and body[0].value is not None
+
+    def _hoist(self, st):
+        """helper calls nested inside the expression of an assignment / return / expression statement are evaluated
+        into temporaries in front of it (not under lambdas, comprehensions, conditional expressions or the later
+        operands of `and` / `or`, where Python would not always evaluate them)"""
+        if not isinstance(st, (ast.Assign, ast.Return, ast.Expr)) or st.value is None:
+            return [st]
+        pre = []
+        tr = self
+
+        class H(ast.NodeTransformer):
+            def visit_Lambda(self, n):
+                return n
+            visit_ListComp = visit_GeneratorExp = visit_SetComp = visit_DictComp = visit_IfExp = visit_Lambda
+
+            def visit_BoolOp(self, n):
+                n.values[0] = self.visit(n.values[0])
+                return n
+
+            def visit_Call(self, n):
+                self.generic_visit(n)
+                if (isinstance(n.func, ast.Name) and n.func.id in tr._helpers()
+                        and not any(match(pat, n, {}) for pat, _t, _f in tr.r.expr)):
+                    tr._inl = getattr(tr, "_inl", 0) + 1
+                    tmp = "hoisted_h%d" % tr._inl
+                    pre.append(ast.Assign(targets=[ast.Name(id=tmp, ctx=ast.Store())], value=n))
+                    return ast.Name(id=tmp, ctx=ast.Load())
+                return n
+        import copy
+        v = st.value
+        whole = (isinstance(v, ast.Call) and isinstance(v.func, ast.Name) and v.func.id in self._helpers()
+                 and not isinstance(st, ast.Expr))
+        st2 = copy.deepcopy(st)
+        if whole:
+            # the call itself is inlined by `_inline_helpers`; only its arguments are looked at
+            st2.value.args = [H().visit(a) for a in st2.value.args]
+            for k in st2.value.keywords:
+                k.value = H().visit(k.value)
+        else:
+            st2.value = H().visit(st2.value)
+        return [ast.fix_missing_locations(x) for x in pre] + [ast.fix_missing_locations(st2)]
+
     def _inline_helpers(self, stmts, caller_names, depth=0):
-        if not self.r.helpers:
+        if depth == 0:
+            # closures: a nested def that is CALLED in this function is a local helper (inlined at its call sites, its
+            # free variables being the enclosing function's: they must not be rebound between definition and call);
+            # one whose body is not a single `return E` cannot also be a value and its `def` statement is dropped
+            called = {n.func.id for st in stmts for n in ast.walk(st)
+                      if isinstance(n, ast.Call) and isinstance(n.func, ast.Name)}
+            passed = {a.id for st in stmts for n in ast.walk(st) if isinstance(n, ast.Call)
+                      for a in list(n.args) + [k.value for k in n.keywords] if isinstance(a, ast.Name)}
+            keep = []
+            for st in stmts:
+                if isinstance(st, ast.FunctionDef) and (st.name in called or st.name in passed) \
+                        and not any(match(pat, ast.Call(func=ast.Name(id=st.name, ctx=ast.Load()), args=[], keywords=[]), {})
+                                    for pat, _t, _f in self.r.expr):
+                    self._helpers_now[st.name] = st
+                    if not self._lambda_like(st):
+                        continue
+                keep.append(st)
+            stmts = keep
+        if not self._helpers():
             return stmts
+        stmts = [x for st in stmts for x in self._hoist(st)]
         if depth > 8:
             raise Untranslatable("helper functions nested too deeply (recursion?)")
         out = []
@@ -327,9 +425,9 @@ class Translator2F(Translator2M):
             elif isinstance(st, ast.Return) and isinstance(st.value, ast.Call):
                 call = st.value
                 sink = (lambda e: ast.Return(value=e))
-            if (call is not None and isinstance(call.func, ast.Name) and call.func.id in self.r.helpers
+            if (call is not None and isinstance(call.func, ast.Name) and call.func.id in self._helpers()
                     and not any(match(pat, call, {}) for pat, _t, _f in self.r.expr)):
-                body = self._instantiate(self.r.helpers[call.func.id], call, sink, caller_names, keep)
+                body = self._instantiate(self._helpers()[call.func.id], call, sink, caller_names, keep)
                 out.extend(self._inline_helpers(body, caller_names, depth + 1))
                 continue
             if isinstance(st, ast.If):
@@ -344,7 +442,8 @@ class Translator2F(Translator2M):
     def function_node(self, node, arg_names, ind=2, allow_unused=()):
         """like `function`, for a FunctionDef node (a nested def found with `nested`)"""
         node = _norm_kw(node)
-        if self.r.helpers:
+        self._helpers_now = dict(self.r.helpers)
+        if self.r.helpers or any(isinstance(st, ast.FunctionDef) for st in node.body):
             import copy
             names = {n.id for n in ast.walk(node) if isinstance(n, ast.Name)} | set(arg_names)
             node = copy.copy(node)
